@@ -48,7 +48,9 @@ func NewRetryTransaction(ctx context.Context, retryDelay time.Duration, retryCou
 	go func() {
 		select {
 		case <-ctx.Done():
+			t.retryNumMutex.Lock()
 			t.stopTimer()
+			t.retryNumMutex.Unlock()
 		case <-t.Done():
 			return
 		}
@@ -57,13 +59,28 @@ func NewRetryTransaction(ctx context.Context, retryDelay time.Duration, retryCou
 }
 
 // Transaction.Success() implementation.
+//
+// Success, Fail and the retry timer are serialized using retryNumMutex: the
+// retry callback never runs after the transaction is finished and the timer
+// is never accessed concurrently.
 func (t *RetryTransaction) Success() {
+	t.retryNumMutex.Lock()
+	defer t.retryNumMutex.Unlock()
+
 	t.stopTimer()
 	t.TransactionBase.Success()
 }
 
 // Transaction.Fail() implementation.
 func (t *RetryTransaction) Fail(e error) {
+	t.retryNumMutex.Lock()
+	defer t.retryNumMutex.Unlock()
+
+	t.fail(e)
+}
+
+// You must acquire t.retryNumMutex before calling this function!
+func (t *RetryTransaction) fail(e error) {
 	t.stopTimer()
 	t.TransactionBase.Fail(e)
 }
@@ -103,11 +120,11 @@ func (t *RetryTransaction) timeout() {
 	}
 	t.retryNum++
 	if t.retryNum > t.retryCount {
-		t.Fail(ErrNoMoreRetries)
+		t.fail(ErrNoMoreRetries)
 		return
 	}
 	if err := t.retryCallback(t.Data); err != nil {
-		t.Fail(err)
+		t.fail(err)
 		return
 	}
 	t.restartTimer()
